@@ -112,3 +112,13 @@ Theorem pipe_checker_sound :
     hung = false /\ strm = hdr ++ concat (map fst (filter snd recs)).
 Proof. exact pipe_checker_means. Qed.
 Print Assumptions pipe_checker_sound.
+
+(* Order preserved, nothing invented, at every moment: what the underlying writer has accepted, followed by
+   the bytes of the write it is being handed right now, is a prefix of the accepted stream (clause 2 of the
+   gate checker; clause 3 is flush_completes, clause 4 writer_no_deadlock). *)
+Theorem file_is_prefix_of_accepted_stream :
+  forall cap bsize progs sched,
+    let s := run st tid step (init cap bsize progs) sched in
+    is_prefix (file s ++ parked_bytes s) (concat (accepted (log s))).
+Proof. exact file_prefix_reachable. Qed.
+Print Assumptions file_is_prefix_of_accepted_stream.
